@@ -49,6 +49,10 @@ func (b *binaryStreamPProfProtoDec) Decode() error {
 	if i < 0 {
 		i = length
 	} else {
+		if length-1 < i+1 {
+			// "app{": nothing after the brace, name[i+1:length-1] would be out of range
+			return fmt.Errorf("failed to compile labels")
+		}
 		promqllike := name[i+1 : length-1] // strip {}
 		if len(promqllike) > 0 {
 			words := strings.FieldsFunc(promqllike, func(r rune) bool { return r == '=' || r == ',' })
